@@ -15,6 +15,7 @@
     (R5.rescale-float: zeros_like(<integer column>) + casting='unsafe' truncates every share below 1 to 0);
  R6 _extrapolate_unit_margin averages, per nonreporting unit, only corrections that are non-null and whose percent is within
     max_dist_to_observed of an actual observation.
+ R7 the history stored by get_versioned_results (S3 route) is the whole download: columns added, rows re-ordered, no version left out.
 Not decided: numeric range for given data.
 """
 from __future__ import annotations
@@ -160,6 +161,66 @@ def _float_buffer(t):
         if name in ("numpy.zeros", "numpy.ones", "numpy.empty"):
             return dt is None or _is_float_dtype(dt)
     return False
+
+
+KEEPS_ROWS = {"sort_values", "reset_index", "copy", "rename", "astype", "fillna", "assign", "sort_index", "set_index", "convert_dtypes", "infer_objects"}
+DROPS_ROWS = {"query", "dropna", "drop_duplicates", "head", "tail", "sample", "nlargest", "nsmallest", "truncate", "first", "last", "filter"}
+
+
+def _history_complete(ctx, b):
+    """R7.history-complete: irregular histories can only be recognised if the per-unit pass sees every version that was downloaded: the
+    frame get_versioned_results stores (S3 route) is the download with columns added and rows re-ordered - no row of it is left out
+    (a zero-vote version between two versions with votes IS the irregularity)."""
+    f = ctx.fn(VD, "VersionedDataHandler.get_versioned_results")
+    s = b.summarize(f)
+
+    def is_get(t):
+        return t[0] == "call" and t[1][0] == "attr" and t[1][2] == "get" and t[1][1][0] == "attr" and t[1][1][2] == "s3_client"
+
+    def spine(t):
+        """-> None if every row of the download reaches t, else a description of the step that leaves rows out"""
+        for _ in range(60):
+            k = t[0]
+            if is_get(t):
+                return None
+            if k in ("setitem", "setattr", "mut"):
+                t = t[1]
+            elif k == "phi":
+                return spine(t[2]) or spine(t[3])
+            elif k == "call" and t[1][0] == "attr" and t[1][2] in KEEPS_ROWS:
+                t = t[1][1]
+            elif k == "call" and t[1][0] == "attr" and t[1][2] == "drop":
+                kws = dict((k_, v_) for k_, v_ in t[3])
+                if "columns" in kws or kws.get("axis") in (("const", 1), ("const", "columns")):
+                    t = t[1][1]
+                else:
+                    return f"{ir.show(t, maxdepth=2)[:80]} drops rows"
+            elif k == "call" and t[1][0] == "attr" and t[1][2] in DROPS_ROWS:
+                return f".{t[1][2]}(..) leaves versions out"
+            elif k == "call" and t[1][0] == "attr" and t[1][2] == "add_estimand_results" and t[2]:
+                t = t[2][0]
+            elif k == "sub" and t[2][0] == "const" and isinstance(t[2][1], int):
+                t = t[1]  # element of the (frame, columns) pair returned by the estimandizer
+            elif k == "sub" and t[2][0] in ("list", "const", "fstr"):
+                t = t[1]  # column selection
+            elif k == "sub":
+                return f"row filter [{ir.show(t[2], maxdepth=3)[:90]}] leaves versions out"
+            elif k == "attr" and t[2] in ("loc", "iloc"):
+                t = t[1]
+            else:
+                raise AnalysisError(f"{f.where()}: stored history not understood as a view of the download: {ir.show(t, maxdepth=3)[:140]}")
+        raise AnalysisError(f"{f.where()}: stored history too deep")
+
+    n = 0
+    for pc, attr, t, node in [(w[0], w[1], w[2], w[3] if len(w) > 3 else None) for w in s.attr_writes]:
+        if attr != "data" or t == ("const", None) or is_get(t) or not any(is_get(x) for x in ir.walk(t)):
+            continue
+        n += 1
+        why = spine(t)
+        ctx.ob("C17.R7.history-complete", f"{f.qualname}|every downloaded version reaches the per-unit pass", why is None, f.where(node) if node is not None else f.where(),
+               "the stored history is the download with columns added / rows re-ordered" if why is None
+               else f"{why}: the per-unit pass no longer sees the versions that make a history irregular (500 -> 0 -> 820 reads as 500 -> 820)")
+    ctx.sites("C17.R7", n, 1, "assignment of the downloaded history to self.data in get_versioned_results")
 
 
 def check(ctx):
@@ -423,6 +484,7 @@ def check(ctx):
     ctx.ob("C17.R3.batch", f"{g.qualname}|b_i = margin of the batch after observation i (NaN -> 0)", okbm, g.where(),
            "batch margin = (diff dem - diff gop) / diff two-party votes, forward differences, empty batches 0" if okbm
            else f"batch margin is {txt[:200]}")
+    _history_complete(ctx, b)
     # ---- R6 consumer --------------------------------------------------------------------------------------------
     ef = ctx.fn(BM, "BootstrapElectionModel._extrapolate_unit_margin")
     cstat = ef.nested.get("compute_correction_statistics")
